@@ -7,6 +7,8 @@ import PyodaProofs.C07DateTime
 import PyodaProofs.C07Text
 import PyodaProofs.C07TextInstances
 import PyodaProofs.C07Duration
+import PyodaProofs.C07Segmented
+import PyodaProofs.C07SegmentedInstances
 
 #print axioms Pyoda.C07.parseDigits_leftPad
 #print axioms Pyoda.C07.parseDigits_pad2
@@ -91,3 +93,16 @@ import PyodaProofs.C07Duration
 #print axioms Pyoda.C07.dur_value
 #print axioms Pyoda.C07.durRoundtrip_generic_roundtrip
 #print axioms Pyoda.C07.durJson_generic_roundtrip
+#print axioms Pyoda.C07.spec_nonDigit
+#print axioms Pyoda.C07.spec_notChar
+#print axioms Pyoda.C07.spec_notCharCI
+#print axioms Pyoda.C07.followF_sound
+#print axioms Pyoda.C07.delimitedF_stepsOK
+#print axioms Pyoda.C07.lastSafeList_sound
+#print axioms Pyoda.C07.segs_roundtrip
+#print axioms Pyoda.C07.segFollow_sound
+#print axioms Pyoda.C07.delimitedSegs_segsOK
+#print axioms Pyoda.C07.segmented_roundtrip
+#print axioms Pyoda.C07.embedded_compiles
+#print axioms Pyoda.C07.embedded_delimited
+#print axioms Pyoda.C07.embedded_generic_roundtrip
